@@ -169,6 +169,11 @@ let run (kind : string) (f : string array) : string =
     h enc ^ " " ^ h (encode_json_start_key tb) ^ " " ^ h (encode_json_stop_key tb) ^ " | "
     ^ res (fun (t, kk) -> h t ^ " " ^ h kk) (decode_json_key enc)
   | "DJK" -> res (fun (t, kk) -> h t ^ " " ^ h kk) (decode_json_key (uh f.(0)))
+  | "RD" ->
+    let rt = dtn f.(0) and lo = uh f.(1) and hi = uh f.(2) in
+    let keys = if f.(3) = "~" then [] else List.map uh (split_on ',' f.(3)) in
+    let got = range_iter rt lo hi keys in
+    if got = [] then "~" else join "," (List.map h got)
   | "XK" ->
     let dt = dtn f.(0) and k = uh f.(1) and w = z_of_hex f.(2) in
     let tk = exp_encode_time_key dt k w and mk = exp_encode_meta_key dt k in
